@@ -149,6 +149,7 @@ class Interp:
         self.out = []
         self.mod_frame = {}
         self.frames = []          # frame stack (innermost last)
+        self.loop_override = {}   # id(loop stmt) -> handler(interp, s, fr)
 
     # ------------------------------------------------------------ frames
     def make_locals(self, routine, frame):
@@ -676,6 +677,10 @@ class Interp:
                 self.wr(c, val)
 
     def do_loop(self, s, fr):
+        h = self.loop_override.get(id(s))
+        if h is not None:
+            h(self, s, fr)
+            return
         var = fr[s[1].lower()]
         lo = self.ev(s[2], fr)
         hi = self.ev(s[3], fr)
